@@ -939,7 +939,23 @@ func runFlagSpace(c *Check, a *Analysis) {
 		fn := call.Parent()
 		top := fn
 		okU, okC := false, false
+		family := withClosures(topParent(top))
+		// helpers called from the family that prepare the context (extract-function refactoring)
 		for _, f := range withClosures(topParent(top)) {
+			eachInstr(f, func(in ssa.Instruction) {
+				if cc, ok := in.(ssa.CallInstruction); ok {
+					if cal := cc.Common().StaticCallee(); cal != nil && cal.Pkg == p.RPC && cal.Blocks != nil && cal != sr {
+						if len(p.fieldStoresIn(cal, "Context", "upgrade")) > 0 {
+							okU = true
+						}
+						if len(p.fieldStoresIn(cal, "Context", "codec")) > 0 {
+							okC = true
+						}
+					}
+				}
+			})
+		}
+		for _, f := range family {
 			for _, s := range p.fieldStoresIn(f, "Context", "upgrade") {
 				if f != fn || p.dominatesInstr(s, call) {
 					okU = true
